@@ -119,13 +119,16 @@ class Prop(BaseProp):
                 for e in (ts, te):
                     if t != e:
                         pool.append(abs(ref.fr(t) - ref.fr(e)))
-        small = float(min(pool)) / 2 if pool else (te - ts) / 2
+        small = float(min(pool)) * 0.875 if pool else (te - ts) / 2      # just below every ISI / edge distance involved
         if small > 0:
             ctx.count("noop_checked")
             for name, extra in (("isi_profile", {}), ("spike_profile", {"RI": RI}), ("spike_sync_profile", {"max_tau": mt}),
                                 ("spike_train_order_profile", {"max_tau": mt}), ("isi_distance", {}), ("spike_distance", {"RI": RI}),
-                                ("spike_sync", {"max_tau": mt})):
+                                ("spike_sync", {"max_tau": mt}), ("spike_directionality_values", {"max_tau": mt}),
+                                ("spike_directionality_matrix", {"max_tau": mt, "normalize": False})):
                 fn = getattr(ps, name)
+                if "matrix" in name and N == 2:
+                    continue
                 eq(ctx.call(fn, *args, MRTS=small, **extra), ctx.call(fn, *args, MRTS=0, **extra), "small-mrts-changes-result:" + name,
                    "%s with MRTS=%r (below every ISI) vs MRTS=0" % (name, small), 0)
 
